@@ -23,7 +23,7 @@ def functions_of(repo, prefixes, exact=()):
     return out
 
 
-def run_kinds(ctx, res, prop, fns, floor_subscripts, floor_resolved, rule_prefix="K"):
+def run_kinds(ctx, res, prop, fns, floor_subscripts, floor_resolved, rule_prefix="K", floor_functions=1):
     repo = ctx.repo
     eng = KindEngine(repo)
     def is_private(f):
@@ -77,6 +77,7 @@ def run_kinds(ctx, res, prop, fns, floor_subscripts, floor_resolved, rule_prefix
     res.inst("K1/K2/K5", f"{totals.subscripts} subscripts examined in {len(in_scope)} functions ({totals.both_resolved} with container and index kinds resolved)", True, sample={"rule": "K1/K2/K5", "subscripts": totals.subscripts, "both_resolved": totals.both_resolved, "container_only": totals.container_only, "index_only": totals.index_only, "neither": totals.neither})
     if not ctx.only:
         res.floor("subscripts examined", totals.subscripts, floor_subscripts)
+        res.floor("functions with subscripts analysed by the kind engine", len({k[0] for k, r in eng.results.items() if k[0] in in_scope and r.subscripts}), floor_functions)
         res.floor("subscripts with container and index kinds both resolved", totals.both_resolved, floor_resolved)
     res.extra["kind_resolution"] = {"subscripts": totals.subscripts, "both_resolved": totals.both_resolved, "container_only": totals.container_only, "index_only": totals.index_only, "neither": totals.neither}
     res.extra["function_analyses"] = len(eng.results)
